@@ -249,6 +249,6 @@ def subchecks(tier):
     big = tier == "thorough"
     return [
         Sub("grid", lambda rep, case: body(rep, case, "grid"), cases=cases_grid(tier), shards=16, exhaustive=True),
-        Sub("garbage", lambda rep, case: body(rep, case, "garbage"), strategy=strat_garbage, n=300_000 if big else 2500,
+        Sub("garbage", lambda rep, case: body(rep, case, "garbage"), strategy=strat_garbage, n=300_000 if big else 8000,
             shards=16 if big else 4),
     ]
